@@ -42,20 +42,36 @@ class HarnessError(Exception):
 
 # --------------------------------------------------------------------------- events
 class EventLog:
-    """Stream events folded into a running SHA-256 (never draws from a PRNG)."""
+    """Stream events folded into a running SHA-256 (never draws from a PRNG).  Runs of
+    identical events are folded as (event, count) so a tool spinning at EOF stays cheap."""
 
     def __init__(self):
         self._h = hashlib.sha256()
         self.n = 0
         self.counts = {}
+        self._last = None
+        self._rep = 0
+
+    def _flush(self):
+        if self._last is not None:
+            self._h.update(("%s|%s|%d|%d*%d;" % (self._last + (self._rep,))).encode())
+            k = self._last[0] + "." + self._last[1]
+            self.counts[k] = self.counts.get(k, 0) + self._rep
 
     def add(self, stream, op, requested, returned):
-        self._h.update(("%s|%s|%d|%d;" % (stream, op, requested, returned)).encode())
+        ev = (stream, op, requested, returned)
         self.n += 1
-        k = stream + "." + op
-        self.counts[k] = self.counts.get(k, 0) + 1
+        if ev == self._last:
+            self._rep += 1
+            return
+        self._flush()
+        self._last = ev
+        self._rep = 1
 
     def hexdigest(self):
+        self._flush()
+        self._last = None
+        self._rep = 0
         return self._h.hexdigest()
 
 
